@@ -187,6 +187,9 @@ func materialise(repo, verif string, m mutant, dir string) (bool, string) {
 				continue
 			}
 			if err := cp(f[1]); err != nil {
+				if !m.Reverse && m.Origin == "neutral" {
+					continue // a file the patch creates
+				}
 				return false, "file gone: " + f[1]
 			}
 		}
@@ -326,4 +329,87 @@ func selftest(repo, verif, id string, baseOpen map[string]bool) map[string]any {
 		"errors":  n["error"],
 		"results": res,
 	}
+}
+
+// neutralPatchTest applies every archived property-preserving patch of the property
+// (/verif/neutral/<id>/n*.diff: everyday edits written by sub-agents that saw only the
+// property's text — reworded messages, renames, extracted helpers, restructured
+// conditions, added instrumentation, moved code, adjacent features, equivalent rewrites)
+// as an overlay and counts the obligations that open although nothing was broken.
+// Never influences the verdict on /repo.
+func neutralPatchTest(repo, verif, id string, baseOpen map[string]bool) map[string]any {
+	res := map[string]any{"what": "archived property-preserving patches (neutral/" + id + "/n*.diff) applied as overlays; every obligation that opens is a false alarm of the checker"}
+	files, _ := filepath.Glob(filepath.Join(verif, "neutral", id, "n*.diff"))
+	sort.Strings(files)
+	var rows []map[string]any
+	silent, alarmed, skipped := 0, 0, 0
+	par := 4
+	if n, err := strconv.Atoi(os.Getenv("OBSA_PAR")); err == nil && n > 0 {
+		par = n
+	}
+	out := make([]map[string]any, len(files))
+	sem := make(chan struct{}, par)
+	var wg sync.WaitGroup
+	for i, f := range files {
+		wg.Add(1)
+		go func(i int, f string) {
+			defer wg.Done()
+			sem <- struct{}{}
+			defer func() { <-sem }()
+			name := filepath.Base(f)
+			row := map[string]any{"patch": name}
+			out[i] = row
+			dir, err := os.MkdirTemp("", "obsa-neutral-")
+			if err != nil {
+				row["outcome"] = "error: " + err.Error()
+				return
+			}
+			defer os.RemoveAll(dir)
+			rel, _ := filepath.Rel(verif, f)
+			ok, why := materialise(repo, verif, mutant{Name: name, Origin: "neutral", Patch: rel}, dir)
+			if !ok {
+				row["outcome"] = "skipped: " + why
+				return
+			}
+			o, err := runObls(repo, id, "OBSA_OVERLAY_DIR="+dir)
+			if err != nil {
+				row["outcome"] = "error: " + err.Error()
+				return
+			}
+			if o.Status != "ok" {
+				row["outcome"] = "skipped: " + o.Status + ": " + tail(o.Msg, 200)
+				return
+			}
+			var alarms []string
+			for _, op := range o.Open {
+				if !baseOpen[op.Key] {
+					alarms = append(alarms, op.Status+" "+op.Clause+" "+op.Key)
+				}
+			}
+			row["false_alarms"] = alarms
+			if len(alarms) == 0 {
+				row["outcome"] = "silent"
+			} else {
+				row["outcome"] = "alarmed"
+			}
+		}(i, f)
+	}
+	wg.Wait()
+	for _, row := range out {
+		rows = append(rows, row)
+		switch oc := row["outcome"].(string); {
+		case oc == "silent":
+			silent++
+			fmt.Printf("SELFTEST property=%s neutral-patch=%s: silent (as required)\n", id, row["patch"])
+		case oc == "alarmed":
+			alarmed++
+			al := row["false_alarms"].([]string)
+			fmt.Printf("SELFTEST property=%s neutral-patch=%s: %d FALSE ALARM(S), first: %s\n", id, row["patch"], len(al), tail(al[0], 200))
+		default:
+			skipped++
+			fmt.Printf("SELFTEST property=%s neutral-patch=%s: %s\n", id, row["patch"], strings.ToUpper(oc[:7])+oc[7:])
+		}
+	}
+	res["patches"], res["silent"], res["alarmed"], res["skipped"], res["results"] = len(files), silent, alarmed, skipped, rows
+	return res
 }
